@@ -28,7 +28,25 @@ def snapshot(world):
             continue
         for lab, o in objs.items():
             data["%s%d" % (kind, lab)] = sorted((k, repr(v)) for k, v in o._data.items())
-    return {"dump": d, "data": data}
+    # what the naming layer holds and answers (a structural refusal must not disturb it either)
+    from spydrnet.plugins import namespace_manager
+    tables, answers = {}, {}
+    for kind in ("netlist", "library", "definition"):
+        for lab, o in world.objs[kind].items():
+            ns = namespace_manager.namespaces.get(o)
+            if ns is not None:
+                t = {}
+                for attr in ("namespaces", "edif_namespaces"):
+                    for cls, tab in getattr(ns, attr, {}).items():
+                        t["%s:%s" % (attr, cls.__name__)] = sorted((repr(k), world.label(v)) for k, v in tab.items())
+                tables["%s%d" % (kind, lab)] = t
+            kids = {"netlist": [("library", o.libraries, o.get_libraries)] if kind == "netlist" else [],
+                    "library": [("definition", o.definitions, o.get_definitions)] if kind == "library" else [],
+                    "definition": [("port", o.ports, o.get_ports), ("cable", o.cables, o.get_cables), ("instance", o.children, o.get_instances)] if kind == "definition" else []}[kind]
+            for ck, lst, getter in kids:
+                for nm in sorted(set(x.name for x in lst if isinstance(x.name, str) and not any(ch in x.name for ch in "*?["))):
+                    answers["%s%d/%s/%s" % (kind, lab, ck, nm)] = sorted(world.label(x, ck) for x in getter(nm))
+    return {"dump": d, "data": data, "tables": tables, "answers": answers}
 
 
 def positional_wires(world, op, after=False):
@@ -84,7 +102,8 @@ def run_script(ops_or_len, rng, profile, drv, res, pid, record=None, check_every
         cur = dump_impl(world)
         if out != "ok":
             if after != before:
-                what = [kk for kk in after["dump"] if after["dump"][kk] != before["dump"].get(kk)]
+                what = [kk for kk in after["dump"] if after["dump"][kk] != before["dump"].get(kk)] + \
+                       [part for part in ("data", "tables", "answers") if after.get(part) != before.get(part)]
                 findings.append({"kind": "spec", "prop": "C14", "signature": "%s.refused_%s.state_changed" % (op["t"], out),
                                  "step": k, "detail": "refused call changed %s" % (what or "data")})
         # --- P: re-pointing to a shape-compatible definition keeps every connection on the corresponding pin (C02)
